@@ -450,7 +450,7 @@ void task_body(int me, void* a)
    thrsim::op_boundary((int)prog.size());
 }
 
-std::string op_name(const std::vector<std::string>& t) { return t[0] == "ev" ? t[1] : t[0] == "mk" ? "construct_" + t[2] : t[0] == "cp" ? "copy" : t[0] == "pr" ? "operator<<" : t[0] == "sm" ? "sm_layer" : t[0] == "ff" ? "loop_functions" : t[0] == "mu" ? "mutate_own_model" : t[0]; }
+std::string op_name(const std::vector<std::string>& t) { return t[0] == "ev" ? t[1] : t[0] == "mk" ? "construct_" + t[2] + (t.size() > 4 ? "_neighbour_point" : "") : t[0] == "cp" ? "copy" : t[0] == "pr" ? "operator<<" : t[0] == "sm" ? "sm_layer" : t[0] == "ff" ? "loop_functions" : t[0] == "mu" ? "mutate_own_model" : t[0]; }
 
 RunOut run_plan(const std::vector<std::string>& lines, uint64_t run_index)
 {
